@@ -35,6 +35,7 @@ theorem checkRequired_retargs (s : PS) : (checkRequired s).retargs = s.retargs :
 theorem prepare_cfg (E : Env) (P : Parser) : (prepare E P).cfg = P.cfg := by
   unfold prepare
   simp only
+  show (if _ then _ else _ : Parser).cfg = P.cfg
   split
   · rw [addHelpGroups_cfg, foldl_modOpt_cfg]
   · rw [foldl_modOpt_cfg]
